@@ -119,6 +119,7 @@ func load(root, vroot string, pkgRels []string) (*Loaded, error) {
 	installReflect(m)
 	installMore(m)
 	installBinary(m)
+	installGRPCStatus(m)
 	l.M = m
 	l.LoadS = time.Since(t0).Seconds()
 	return l, nil
@@ -172,6 +173,7 @@ func cmdRun(args []string) {
 	budget := fs.Float64("budget", 0, "wall budget (s)")
 	validate := fs.Int("validate", 0, "paths to validate natively")
 	stepcap := fs.Int("stepcap", 0, "per-path step cap")
+	noraces := fs.Bool("noraces", false, "do not report data races")
 	bg := fs.String("bg", "", "comma-separated background loops to start as threads (backgroundFlush,compactionWorker,...)")
 	conccap := fs.Int("conccap", 0, "cap on the number of values a symbolic length/index may be forked into")
 	tracePath := fs.String("trace", "", "replay file: re-execute that one path with a trace of scheduling points")
@@ -200,6 +202,7 @@ func cmdRun(args []string) {
 		return
 	}
 	o := &Opts{Workers: *workers, Preempt: *pbound, MaxZeros: *maxZeros, Thorough: *thorough, MaxPaths: *maxPaths, BudgetS: *budget, Verbose: true, Samples: 3, Validate: *validate, StepCap: *stepcap, ConcCap: *conccap}
+	o.NoRaces = *noraces
 	if *bg != "" {
 		o.Background = map[string]bool{}
 		for _, b := range strings.Split(*bg, ",") {
